@@ -31,6 +31,16 @@ def run(tier, seed, replay=None):
             r = {"A": c["A"], "b": c["b"], "c": c["c"], "n": len(c["c"]), "m": len(c["b"]), "ints": c["ints"], "cv": c["cv"], "ub": c["ub"],
                  "input": c, "events": [{"e": what, "what": "WorkerCrash"}]}
         trs.append(r)
+    if not replay:
+        bulk = [{"seed": rng.randint(0, 10 ** 9), "count": 300 if tier == "quick" else 5000} for _ in range(14)]
+        cov = {}
+        for r in run_tasks("milp", "run_milp_bulk", bulk, timeout=1200):
+            if not isinstance(r, dict) or "kept" not in r:
+                raise tlc.MachineryError("milp bulk worker failed: " + str(r)[:300])
+            trs += r["kept"]
+            for k, v in r["cov"].items():
+                cov[k] = cov.get(k, 0) + v
+        ck.extra["coverage_directed_generation_near_miss_bound_rows"] = cov
     vs = ck.validate(DIR, "MilpTrace", trs, "solve_milp under 14 option settings per instance", timeout=3000)
     ck.classify(trs, vs, nontrivial=lambda t, v: t["n"] >= 1)
     for t in trs:
